@@ -78,6 +78,21 @@ func main() {
 	})
 
 	mux := goahttp.NewMuxer()
+	// a middleware that asks for the path variables and the pattern before the request is routed (what goa's
+	// own debug/log middlewares do): it must see the values of its own request
+	var mwBad int64
+	mux.Use(func(next http.Handler) http.Handler {
+		return http.HandlerFunc(func(rw http.ResponseWriter, r *http.Request) {
+			want := r.Header.Get("X-Id")
+			if got := mux.Vars(r)["id"]; got != want {
+				atomic.AddInt64(&mwBad, 1)
+			}
+			if p := mux.ResolvePattern(r); p != r.Header.Get("X-Pattern") {
+				atomic.AddInt64(&mwBad, 1)
+			}
+			next.ServeHTTP(rw, r)
+		})
+	})
 	mux.Handle("GET", "/a/{id}", func(rw http.ResponseWriter, r *http.Request) { fmt.Fprint(rw, "a:"+mux.Vars(r)["id"]) })
 	mux.Handle("GET", "/b/{id}/x/{*rest}", func(rw http.ResponseWriter, r *http.Request) {
 		fmt.Fprint(rw, "b:"+mux.Vars(r)["id"]+":"+mux.Vars(r)["rest"])
@@ -86,12 +101,19 @@ func main() {
 		rec := httptest.NewRecorder()
 		id := fmt.Sprintf("%d-%d", g, i)
 		if (g+i)%2 == 0 {
-			mux.ServeHTTP(rec, httptest.NewRequest("GET", "/a/"+id, nil))
+			req := httptest.NewRequest("GET", "/a/"+id, nil)
+			req.Header.Set("X-Id", id)
+			req.Header.Set("X-Pattern", "/a/{id}")
+			mux.ServeHTTP(rec, req)
 			return rec.Body.String() == "a:"+id
 		}
-		mux.ServeHTTP(rec, httptest.NewRequest("GET", "/b/"+id+"/x/p/q", nil))
+		req := httptest.NewRequest("GET", "/b/"+id+"/x/p/q", nil)
+		req.Header.Set("X-Id", id)
+		req.Header.Set("X-Pattern", "/b/{id}/x/{*rest}")
+		mux.ServeHTTP(rec, req)
 		return rec.Body.String() == "b:"+id+":p/q"
 	})
+	w.Emit(map[string]any{"area": "muxer_middleware_lookups", "goroutines": *n, "ops": *n * *iters, "echo_failures": atomic.LoadInt64(&mwBad)})
 
 	pats := []string{"^[a-z]+$", "^[0-9]+$", "^a.*z$", "^(x|y)+$", "^[a-c]{2,3}$"}
 	run("validate_pattern", func(g, i int) bool {
